@@ -25,12 +25,20 @@ var headerPool = sync.Pool{
 
 // AcquireHeaderField gets HeaderField from the pool.
 func AcquireHeaderField() *HeaderField {
+	if verifOn {
+		hf := headerPool.Get().(*HeaderField)
+		verifPool("headerfield", hf, true)
+		return hf
+	}
 	return headerPool.Get().(*HeaderField)
 }
 
 // ReleaseHeaderField puts HeaderField to the pool.
 func ReleaseHeaderField(hf *HeaderField) {
 	hf.Reset()
+	if verifPool("headerfield", hf, false) {
+		return
+	}
 	headerPool.Put(hf)
 }
 
